@@ -232,6 +232,8 @@ def pop_case(draw):
             "cfg": {"dt": 0.01, "steps": draw(st.integers(10, 25)),
                     # delays approximated by chains of ODEs (orders at least dde_approx, plain delays become chains)
                     "dde_approx": draw(st.sampled_from([0, 0, 0, 0, 3])) if any(c.get("d") is not None for c in conns) else 0,
+                    # an extrinsic 1-D input into an input variable of the first population (all its units)
+                    "pop_input": draw(st.sampled_from([False] * 5 + [True])),
                     # the judged run is the first translation of the template objects, or follows an earlier one
                     "warmup": draw(st.sampled_from([None, None, None, "run", "run_other_dt", "get_run_func", "run_in_place",
                                                     "run_in_place"]))}}
@@ -300,7 +302,18 @@ class PopArm(Arm):
             res.labels = sorted(lab)
         else:
             rm = RefModel(ex_spec)
-        ref_all = rm.simulate(steps, dt)[:steps]
+        ref_inputs, run_inputs = None, None
+        if cfg.get("pop_input") and not cfg.get("warmup"):
+            name0, nt0, n0, _ = ps["pops"][0]
+            o0 = ps["ntypes"][nt0]["ops"][0]
+            iv = next((v[0] for v in ps["ops"][o0]["vars"] if v[1] == "input"), None)
+            if iv is not None:
+                arr = np.round(0.3 * np.sin(0.7 * np.arange(steps)) + 0.1, 6)
+                ref_inputs = {f"{name0}_u{i}/{o0}/{iv}": arr for i in range(n0)}
+                run_inputs = {f"{name0}/{o0}/{iv}": arr}
+                lab.add("population_input")
+                res.labels = sorted(lab)
+        ref_all = rm.simulate(steps, dt, inputs=ref_inputs)[:steps]
         if not np.all(np.isfinite(ref_all)) or np.max(np.abs(ref_all)) > 1e6:
             res.rejected = "reference not benign"
             return res
@@ -336,10 +349,16 @@ class PopArm(Arm):
                 warnings.simplefilter("ignore")
                 df = circ.run(simulation_time=steps * dt, step_size=dt, outputs=dict(outputs), solver="euler",
                               verbose=False, clear=True, in_place=False, float_precision="float64",
+                              **({"inputs": dict(run_inputs)} if run_inputs else {}),
                               **({"dde_approx": dde} if dde else {}))
         except HarnessError:
             raise
         except Exception as e:
+            if run_inputs:
+                # extrinsic inputs into population variables are refused by the implementation (an exception): what
+                # is judged is that a run which does return has used the population network and the input
+                res.rejected = f"input into a population variable is refused: {type(e).__name__}"
+                return res
             res.violate(exc_bucket("population-run-raises", e),
                         f"pops {[(p[0], p[2]) for p in ps['pops']]} conns {[(c['s'], c['t'], 'scalar' if not isinstance(c['W'], list) else np.shape(c['W']), c.get('d'), c.get('sp'), bool(c.get('coupling'))) for c in ps['conns']]}: {short_exc(e)}")
             return res
